@@ -19,7 +19,7 @@ EXTENDS ProtoValid, TLC, Json
 
 CONSTANTS
   Bases,       \* initial workspaces: small {"p2","p3","ed","p2p2","p3p2","p2p3","edp2","p3p3","p2pub","p3pub"},
-               \* rich {"R2","R3","RE"}, with custom options {"O2","O3","OE"}, synthetic oneof names {"U3","U3x"}
+               \* rich {"R2","R3","RE"}, with custom options {"O2","O3","OE"}, synthetic oneof names {"U3","U3x"}, prefix-like package components {"PX"}
   Pkg1Ids,     \* packages of f1 in the small bases: subset of {"none","a","ab","b"}
   MaxAdds,     \* bound on the number of additive edits applied to a base
   GrowBases,   \* bases that additive edits are applied to
@@ -129,6 +129,16 @@ SynthF1(x) ==
         \o (IF x THEN << XMsg("b", 0), XFld("zf", 7, 1, "optional", TScalar("int32")),
                           XEnum("a", 7), XVal("za", 9, 0), XVal("_zf", 9, 1) >> ELSE << >>))
 IsSynthBase(b) == b \in {"U3", "U3x"}
+(* package components where one is a textual PREFIX of another: f1 in package q.zab refers to za.m of
+   the imported package za (field type, extendee, rpc types): `za` is a package of its own, not a
+   prefix of the component `zab`, so every reference resolves to .za.m *)
+PrefixWs ==
+  << XFile("f1.proto", <<"q", "zab">>, "proto2", <<Imp("f2.proto", "plain")>>,
+           << XMsg("m", 0), XFld("zf", 1, 1, "optional", TRef(Rel(<<"za", "m">>))),
+              XExt("zx", 0, 100, "optional", Rel(<<"za", "m">>), TScalar("int32")),
+              XSvc("zs"), XMtd("zr", 4, Rel(<<"za", "m">>), Rel(<<"za", "m">>)) >>),
+     XFile("f2.proto", <<"za">>, "proto2", <<>>,
+           << [XMsg("m", 0) EXCEPT !.xr = << <<100, 199>> >>], XFld("zf", 1, 1, "optional", TScalar("int32")) >>) >>
 
 RichWs(b) == CASE b = "R2" -> << RichF1("proto2", <<"a">>), F2Rich >>
                [] b = "R3" -> << RichF1("proto3", <<"a", "b">>), F2Rich >>
@@ -358,10 +368,11 @@ Next == \/ AddMsg \/ AddEnum \/ AddVal \/ AddFld \/ AddMap \/ AddOneof \/ AddExt
         \/ MutSetValNum \/ MutDropLeaf \/ MutSetMapKey \/ MutSetDflt
         \/ AddAliasVal \/ MutDropAlias \/ AddDep \/ MutSetImpKind \/ AddGroup \/ AddOptUse \/ AddOptExt
 
-InitWs == {<<b, BaseWs(b, PkgOf(p))>> : b \in {x \in Bases : ~IsRich(x) /\ ~IsOptBase(x) /\ ~IsSynthBase(x)}, p \in Pkg1Ids}
+InitWs == {<<b, BaseWs(b, PkgOf(p))>> : b \in {x \in Bases : ~IsRich(x) /\ ~IsOptBase(x) /\ ~IsSynthBase(x) /\ x # "PX"}, p \in Pkg1Ids}
           \cup {<<b, RichWs(b)>> : b \in {x \in Bases : IsRich(x)}}
           \cup {<<b, OptWs(b)>> : b \in {x \in Bases : IsOptBase(x)}}
           \cup {<<b, << SynthF1(b = "U3x") >> >> : b \in {x \in Bases : IsSynthBase(x)}}
+          \cup {<<b, PrefixWs>> : b \in {x \in Bases : x = "PX"}}
 Init == /\ tag = {} /\ nadd = 0
         /\ \E i \in InitWs : base = i[1] /\ ws = i[2]
 Spec == Init /\ [][Next]_vars
